@@ -498,11 +498,22 @@ func (i *interpreter) concreteKey(k value) value {
 	case structure:
 		var out structure
 		for idx, f := range kv {
-			if isSymString(f) {
+			var nf value
+			switch {
+			case isSymString(f):
+				nf = i.concretizeStr(f)
+			default:
+				if sub, ok := f.(structure); ok {
+					if c := i.concreteKey(sub); !sameStructure(c, sub) {
+						nf = c
+					}
+				}
+			}
+			if nf != nil {
 				if out == nil {
 					out = append(structure{}, kv...)
 				}
-				out[idx] = i.concretizeStr(f)
+				out[idx] = nf
 			}
 		}
 		if out != nil {
@@ -510,6 +521,12 @@ func (i *interpreter) concreteKey(k value) value {
 		}
 	}
 	return k
+}
+
+// sameStructure reports whether concreteKey returned its argument unchanged.
+func sameStructure(a value, b structure) bool {
+	as, ok := a.(structure)
+	return ok && len(as) == len(b) && (len(b) == 0 || &as[0] == &b[0])
 }
 
 func (i *interpreter) symLen(x value) value {
